@@ -5,7 +5,7 @@ import z3
 
 from . import front
 from .ty import (TInt, TReal, TBool, TStr, TNone, TAny, TTuple, TRec, TList, TDict, TSet, TOpt,
-                 TUnion, TObj, TFunc)
+                 TUnion, TObj, TFunc, TLin)
 from .vals import *  # noqa
 from .symex import t_and, t_or, t_not, t_ite, to_real, Frame, Contract, SPEC_BUILTINS
 from .interp import NUM
